@@ -176,11 +176,27 @@ func genC19(out *caseWriter, seed uint64, n int, args []string) error {
 		}
 		// include tree: file 0 is the root; file i is included by a random earlier file
 		nf := r.rangeInt(1, 7)
+		wide := 0
+		if i%6 == 5 {
+			// a wide, nested tree: the root includes `wide` files and each of those includes a file of
+			// its own, so that many parser goroutines which still have to spawn another one are
+			// active at once (a bound on concurrent parsers deadlocks here; seeded changes
+			// C19-errgroup-limit-deadlock / C14-errgroup-limit-hang were missed without this shape)
+			wide = r.rangeInt(17, 40)
+			nf = 1 + 2*wide
+		}
 		c.files = make([]c19File, nf)
 		dirOf := make([]string, nf)
 		c.files[0].name = "root.knut"
 		for f := 1; f < nf; f++ {
 			parent := r.intn(f)
+			if wide > 0 {
+				if f <= wide {
+					parent = 0
+				} else {
+					parent = f - wide
+				}
+			}
 			sub := ""
 			if r.chance(50) {
 				sub = fmt.Sprintf("s%d", f)
